@@ -19,6 +19,8 @@ pub struct RefSig {
     pub malformed: bool,
     /// the `ts1-` quirk is specified even if `ambiguous_values` (exactly one timestamp option whose TSval octets are present)
     pub ts1_decided: bool,
+    /// malformed list: layout name of the option whose kind octet was read last
+    pub aborted_kind: Option<String>,
     /// more than one MSS/WS/TS option, or one with a non-standard length: value fields unjudged
     pub ambiguous_values: bool,
     pub mss_value: Option<u16>,
@@ -127,6 +129,8 @@ pub struct ParsedOpts {
     /// whatever the option's declared length: Some(TSval == 0)
     pub ts1_zero: Option<bool>,
     pub malformed: bool,
+    /// layout name of the option at which a malformed list ends
+    pub aborted_kind: Option<String>,
     pub ambiguous: bool,
     pub opt_plus: bool,
     /// number of `opt+` pushes a parser that does not stop at EOL would make
@@ -144,6 +148,7 @@ pub fn parse_opts(area: &[u8], stop_at_eol: bool) -> ParsedOpts {
         ts: None,
         ts1_zero: None,
         malformed: false,
+        aborted_kind: None,
         ambiguous: false,
         opt_plus: false,
         eol_seen: false,
@@ -174,13 +179,28 @@ pub fn parse_opts(area: &[u8], stop_at_eol: bool) -> ParsedOpts {
             i += 1;
             continue;
         }
+        // the kind of an option is part of the layout as soon as its kind octet is read (p0f
+        // records it before it looks at the length): a truncated or ill-sized final option still
+        // shows in the layout, and the walk ends there
+        let kind_name = |k: u8| -> String {
+            match k {
+                2 => "mss".into(),
+                3 => "ws".into(),
+                4 => "sok".into(),
+                5 => "sack".into(),
+                8 => "ts".into(),
+                k => format!("?{k}"),
+            }
+        };
         if i + 1 >= area.len() {
             p.malformed = true;
+            p.aborted_kind = Some(kind_name(kind));
             break;
         }
         let len = area[i + 1] as usize;
         if len < 2 || i + len > area.len() {
             p.malformed = true;
+            p.aborted_kind = Some(kind_name(kind));
             break;
         }
         let data = &area[i + 2..i + len];
@@ -334,6 +354,7 @@ pub fn ref_sig(ip: &Ip, tcp: &Tcp, opt_area: &[u8], stop_at_eol: bool) -> RefSig
         malformed: p.malformed,
         ambiguous_values: p.ambiguous,
         ts1_decided: p.ts1_zero.is_some(),
+        aborted_kind: p.aborted_kind.clone(),
         mss_value: p.mss,
     }
 }
